@@ -189,8 +189,15 @@ def observe(ctx, inp):
                     nav = nav.name(st[1]) if st[0] == "n" else nav.index(st[1])
                 return nav.value()
             navs.append([enc_steps(path), observe_call(run, enc_jv)])
-        lo = _kept_parts(doc, lo)
+        # re-loading the document for every child and collecting garbage is the costly part of a case: every second case of the
+        # quick tier, every eighth of the thorough tier
+        _KEPT[0] += 1
+        if _KEPT[0] % (2 if ctx.tier == "quick" else 8) == 0:
+            lo = _kept_parts(doc, lo)
     return [before, lo, enc_jv(inp.get("inst")), navs]
+
+
+_KEPT = [0]
 
 
 def _kept_parts(doc, lo):
